@@ -55,7 +55,13 @@ def gen_cases(ctx):
     for x in adv[-6:]:
         ops += [("n", 0, x), ("n", 1, x)]
     k7 = Case("K7_WMA_adversary", ops, dump=(), meta={"ind": "WMA", "p": 2, "need": 2, "npre": len(adv) - 6, "nsuf": 6, "bars": False, "k7": True})
-    return with_scaled(cases, r, frac=0.2) + [k7]
+    # K8 (known finding): a sum that overflowed never recovers: SMA(2) fed 1.7e308 twice returns inf for ever after
+    H = 1.7e308
+    ops = [new_op(0, "SMA", (2, 0, 0, 0.0)), new_op(1, "SMA", (2, 0, 0, 0.0)), ("n", 0, H), ("n", 0, H)]
+    for x in (1.0, 2.0, 3.0, 4.0):
+        ops += [("n", 0, x), ("n", 1, x)]
+    k8 = Case("K8_SMA_overflow", ops, dump=(), meta={"ind": "SMA", "p": 2, "need": 2, "npre": 2, "nsuf": 4, "bars": False, "k8": True})
+    return with_scaled(cases, r, frac=0.2) + [k7, k8]
 
 
 def nontrivial(c):
@@ -125,6 +131,8 @@ def check_impl(ctx, cases):
                 ok = abs(fa[0] - fb[0]) <= tol * 4
             if not ok:
                 key = {"indicator": "WMA", "class": "rounding-aligned-adversary"} if c.meta.get("k7") else None
+                if c.meta.get("k8"):
+                    key = {"indicator": "SMA", "class": "intermediate-overflow"}
                 out.append(Violation("%s(%d): after a history of %d inputs the output %s differs from a fresh instance fed only the last %d inputs (%s) "
                                      "beyond the property's tolerance" % (ind, p, c.meta["npre"] + k + 1, fa, k + 1, fb), case=c, finding_key=key))
                 break
